@@ -120,6 +120,109 @@ func runC13(c *core.Ctx) {
 		}
 	}
 	c13Sequences(c)
+	c13Resign(c)
+}
+
+// c13Resign: the exported Sign* methods applied to a message that is already signed (after the application changed a field, or simply
+// twice): the signature the message then carries must verify like any other.
+func c13Resign(c *core.Ctx) {
+	c.Group("sign-again")
+	for _, kn := range []string{"sp2048", "spec256"} {
+		for _, kind := range []string{"authn", "logout-request", "logout-response", "artifact-resolve"} {
+			for _, how := range []string{"twice", "after-edit", "three-times"} {
+				kn, kind, how := kn, kind, how
+				key := fmt.Sprintf("resign/key=%s/%s/%s", kn, kind, how)
+				c.Case(key, func(t *core.T) {
+					t.NonTrivial()
+					method := dsig.RSASHA256SignatureMethod
+					if kn == "spec256" {
+						method = dsig.ECDSASHA256SignatureMethod
+					}
+					sp := harness.NewSP(harness.SPOpt{SPKey: kn, SignMethod: method})
+					cert := samlgen.Key(kn).Cert
+					var el *etree.Element
+					var err error
+					n := 2
+					if how == "three-times" {
+						n = 3
+					}
+					_, p := guard(func() error {
+						switch kind {
+						case "authn":
+							var r *saml.AuthnRequest
+							if r, err = sp.MakeAuthenticationRequest(samlgen.IDPSSO, saml.HTTPPostBinding, saml.HTTPPostBinding); err != nil {
+								return nil
+							}
+							for i := 1; i < n && err == nil; i++ {
+								if how == "after-edit" {
+									tr := true
+									r.ForceAuthn = &tr
+								}
+								err = sp.SignAuthnRequest(r)
+							}
+							el = r.Element()
+						case "logout-request":
+							var r *saml.LogoutRequest
+							if r, err = sp.MakeLogoutRequest(samlgen.IDPSLO, "alice"); err != nil {
+								return nil
+							}
+							for i := 1; i < n && err == nil; i++ {
+								if how == "after-edit" {
+									r.Destination = samlgen.IDPSLO + "?edited=1"
+								}
+								err = sp.SignLogoutRequest(r)
+							}
+							el = r.Element()
+						case "logout-response":
+							var r *saml.LogoutResponse
+							if r, err = sp.MakeLogoutResponse(samlgen.IDPSLO, "id-given"); err != nil {
+								return nil
+							}
+							for i := 1; i < n && err == nil; i++ {
+								if how == "after-edit" {
+									r.InResponseTo = "id-edited"
+								}
+								err = sp.SignLogoutResponse(r)
+							}
+							el = r.Element()
+						case "artifact-resolve":
+							var r *saml.ArtifactResolve
+							if r, err = sp.MakeArtifactResolveRequest("artifact-1"); err != nil {
+								return nil
+							}
+							for i := 1; i < n && err == nil; i++ {
+								if how == "after-edit" {
+									r.Artifact = "artifact-2"
+								}
+								err = sp.SignArtifactResolve(r)
+							}
+							el = r.Element()
+						}
+						return nil
+					})
+					t.Impl(n)
+					t.Compared()
+					if p != "" {
+						t.Fail("C13/sign-again/"+kind+"/panic@"+p[strings.LastIndex(p, "@")+1:], "panicked: %s", p)
+						return
+					}
+					if err != nil {
+						t.Fail("C13/sign-again/"+kind+"/error", "%s: %v", key, err)
+						return
+					}
+					wire := samlgen.Parse(samlgen.Doc(el))
+					ns, ok, alg, _, verr := verifyEnveloped(wire, []*x509.Certificate{cert}, samlgen.T0)
+					t.Outcome(fmt.Sprintf("signatures=%d ok=%v", ns, ok))
+					if ns != 1 || !ok {
+						t.Fail("C13/sign-again/"+kind+"/signature-does-not-verify", "%s: after signing the already signed message again it carries %d signatures; verification under the SP certificate: %v %s", key, ns, ok, verr)
+						t.Input("element", string(samlgen.Doc(wire.Copy())))
+					} else if alg != method {
+						t.Fail("C13/sign-again/"+kind+"/method", "SignatureMethod %q, configured %q", alg, method)
+					}
+				})
+			}
+		}
+	}
 }
 
 // c13Sequences: ONE ServiceProvider value reconfigured between messages (signature method and/or key pair changed), as a long-lived
